@@ -43,9 +43,13 @@ Watchdog::Watchdog(long csecs,
     throw std::invalid_argument("Watchdog constructor called with a"
                                 " non-positive number of centiseconds");
   }
+  PPL_VERIF_POINT("ctor.0");
   in_critical_section = true;
+  PPL_VERIF_POINT("ctor.1");
   pending_position = new_watchdog_event(csecs, handler, expired);
+  PPL_VERIF_POINT("ctor.2");
   in_critical_section = false;
+  PPL_VERIF_POINT("ctor.3");
 }
 
 inline
@@ -56,19 +60,30 @@ Watchdog::Watchdog(long csecs, void (* const function)())
     throw std::invalid_argument("Watchdog constructor called with a"
                                 " non-positive number of centiseconds");
   }
+  PPL_VERIF_POINT("ctor.0");
   in_critical_section = true;
+  PPL_VERIF_POINT("ctor.1");
   pending_position = new_watchdog_event(csecs, handler, expired);
+  PPL_VERIF_POINT("ctor.2");
   in_critical_section = false;
+  PPL_VERIF_POINT("ctor.3");
 }
 
 inline
 Watchdog::~Watchdog() {
+  PPL_VERIF_POINT("dtor.0");
   if (!expired) {
+    PPL_VERIF_POINT("dtor.1");
     in_critical_section = true;
+    PPL_VERIF_POINT("dtor.2");
     remove_watchdog_event(pending_position);
+    PPL_VERIF_POINT("dtor.3");
     in_critical_section = false;
+    PPL_VERIF_POINT("dtor.4");
   }
+  PPL_VERIF_POINT("dtor.5");
   delete &handler;
+  PPL_VERIF_POINT("dtor.6");
 }
 
 inline void
